@@ -72,6 +72,36 @@ def answer : List String → String
     match parseRatList? xin, parseRatList? yin, parseRatList? xout, parseBool? avg with
     | some xin, some yin, some xout, some avg => showOpt (showList showRat) (resample xin yin xout avg)
     | _, _, _, _ => "bad-op"
+  | ["decusp", m, common, fb, ft, cb, ct] =>
+    match parseRat? m, parseRatList? common, parseRatList? fb, parseRatList? ft, parseRatList? cb, parseRatList? ct with
+    | some m, some common, some fb, some ft, some cb, some ct => showOpt (showList showRat) (decusp m common fb ft cb ct)
+    | _, _, _, _, _, _ => "bad-op"
+  | ["setheight", hOld, hNew, cons, adjust, ids, nds] =>
+    match parseRat? hOld, parseRat? hNew, parseBool? cons, parseNatList? adjust, parseNatList? ids, parseRatList? nds with
+    | some hOld, some hNew, some cons, some adjust, some ids, some nds =>
+      if ids.length ≠ nds.length then "bad-op" else
+      match setHeight hOld hNew cons adjust (List.zip ids nds) with
+      | some (h, nd') => showRat h ++ " " ++ showList showRat (nd'.map (·.2))
+      | none => "reject"
+    | _, _, _, _, _, _ => "bad-op"
+  | ["blockmesh", mode, af, fuels, hOlds, tops, comps] =>
+    let m? : Option CMode := if mode = "off" then some .off else if mode = "all" then some .all
+      else if mode = "auto" then some .auto else none
+    match m?, parseBool? af, parseNatList? fuels, parseRatList? hOlds, parseRatList? tops,
+          parseList? (parseList? parseRatList?) comps with
+    | some m, some af, some fuels, some hOlds, some tops, some comps =>
+      if fuels.length = hOlds.length ∧ hOlds.length = tops.length ∧ tops.length = comps.length then
+        let mk : List Rat → MComp := fun l => match l with
+          | f :: fl :: nd => { fuel := f != 0, fluid := fl != 0, nd := nd }
+          | _ => { fuel := false, fluid := false, nd := [] }
+        let blocks := (List.zip (List.zip fuels hOlds) (List.zip tops comps)).map
+          (fun x => (x.1.1 != 0, x.1.2, x.2.1, x.2.2.map mk))
+        match setBlockMesh m af true 0 blocks with
+        | some r => showList (fun b : Rat × List MComp =>
+            "[" ++ showRat b.1 ++ "," ++ showList (fun c : MComp => showList showRat c.nd) b.2 ++ "]") r
+        | none => "reject"
+      else "bad-op"
+    | _, _, _, _, _, _ => "bad-op"
   | _ => "bad-op"
 
 def main : IO Unit := loop answer
